@@ -113,7 +113,8 @@ type State struct {
 	facts   []Fact
 	nonNil  []types.Object
 	isNil   []types.Object
-	decoded []string // object paths filled by a child decoder
+	decoded []string          // object paths filled by a child decoder
+	ensures map[string][]Fact // error-object path -> facts that hold when that child decode succeeded
 }
 
 func newState() *State {
@@ -135,6 +136,12 @@ func (s *State) clone() *State {
 	n.nonNil = append(n.nonNil, s.nonNil...)
 	n.isNil = append(n.isNil, s.isNil...)
 	n.decoded = append(n.decoded, s.decoded...)
+	if s.ensures != nil {
+		n.ensures = map[string][]Fact{}
+		for k, v := range s.ensures {
+			n.ensures[k] = v
+		}
+	}
 	return n
 }
 
@@ -195,6 +202,7 @@ type Interp struct {
 	shared    *sharedCtx
 
 	pendingRead *Rec
+	curFacts    []Fact
 	noSites     bool
 	breaks      []*brk
 	continues   []*brk
@@ -792,7 +800,7 @@ func (in *Interp) eval(st *State, e ast.Expr) Val {
 			if st.bufs[b.ID] != nil && st.bufs[b.ID].Origin == "param" {
 				return IntV{setAtomMax(FromAtom(&Atom{Kind: "val", Path: "P[" + b.Off.Add(idx).String() + "]"}), 255)}
 			}
-			return IntV{Opq(in.render(st, e))}
+			return IntV{setAtomMax(Opq(in.render(st, e)), 255)} // a byte of a local buffer
 		case SliceV:
 			if b.Path != "" {
 				t := in.info.TypeOf(e)
